@@ -851,7 +851,9 @@ static void cmd_pget(int nt, char **t)
 	int hr = hidx(t[1]); char *p = keyarg(t[2]); int mode = nt > 3 ? (int)L(t[3]) : 0; struct json_object *res = (struct json_object *)0x1; int rc;
 	errno = vf_ambient_errno_v > 0 ? vf_ambient_errno_v : 0;
 	/* the formatted variants: "%s" of the whole pointer, or -- every other time -- the same string put together from several conversions */
-	if (mode == 1) { static unsigned alt; size_t k = strlen(p) / 2; rc = (alt++ & 1) ? json_pointer_getf(H[hr], &res, "%.*s%s%s", (int)k, p, p + k, "") : json_pointer_getf(H[hr], &res, "%s", p); }
+	if (mode == 1) { static unsigned alt; size_t k = strlen(p) / 2; unsigned a = alt++ % 3;
+		/* (third form: the formatted text goes on behind a NUL produced by %c -- the pointer is the C string in front of it) */
+		rc = a == 1 ? json_pointer_getf(H[hr], &res, "%.*s%s%s", (int)k, p, p + k, "") : a == 2 ? json_pointer_getf(H[hr], &res, "%s%c/zz/0", p, 0) : json_pointer_getf(H[hr], &res, "%s", p); }
 	else if (mode == 2) { rc = json_pointer_get(H[hr], p, NULL); res = NULL; }
 	else rc = json_pointer_get(H[hr], p, &res);
 	ob_printf(&out, "= %d %d ", rc, errno);
@@ -863,7 +865,8 @@ static void cmd_psetf(int nt, char **t)
 {
 	int hr = hidx(t[1]), hv = hidx(t[3]); char *p = keyarg(t[2]); int rc; (void)nt;
 	errno = vf_ambient_errno_v > 0 ? vf_ambient_errno_v : 0;
-	{ static unsigned alt; size_t k = strlen(p) / 2; rc = (alt++ & 1) ? json_pointer_setf(&H[hr], H[hv], "%.*s%s%s", (int)k, p, p + k, "") : json_pointer_setf(&H[hr], H[hv], "%s", p); }
+	{ static unsigned alt; size_t k = strlen(p) / 2; unsigned a = alt++ % 3;
+	  rc = a == 1 ? json_pointer_setf(&H[hr], H[hv], "%.*s%s%s", (int)k, p, p + k, "") : a == 2 ? json_pointer_setf(&H[hr], H[hv], "%s%c/zz/0", p, 0) : json_pointer_setf(&H[hr], H[hv], "%s", p); }
 	ob_printf(&out, "= %d %d", rc, errno); emit_dlog(); free(p);
 }
 
